@@ -46,6 +46,7 @@ type propCfg struct {
 	Pkgs         string
 	FSPkgs       string
 	ExtPkgs      string
+	MapPkgs      string // packages whose map accesses are reported to the happens-before race tracker
 	QuickRuns    int
 	ThoroughRuns int
 	RunsPerProc  int
@@ -144,6 +145,7 @@ func init() {
 	c13 := *props["C12"]
 	c13.QuickRuns, c13.ThoroughRuns, c13.RunsPerProc = 6000, 300000, 150
 	c13.Rule = "one evaluation = one simulated run: 1-3 DatabaseAPI connections (CreateDatabaseAPI with a recording send function) each sending 1-10 messages (get, query, sub, qsub, create, update, insert, delete, cancel of live/finished/unknown operations, raw malformed messages) with keys in and out of existing databases, valid and invalid query texts, payloads in JSON/CBOR/garbage, against a hashmap or bbolt database holding JSON, struct and RAW records, plus a concurrent privileged writer feeding subscriptions; every request is handled on its own goroutine as in production and the scheduler interleaves them; oracle: per-request reply automaton, reply IDs belong to the connection, terminal replies after quiescence, write->read-back JSON equality plus _meta, process survival; distinct = distinct hash of request/reply counts; non-trivial = at least 2 goroutine switches"
+	c13.MapPkgs = "api,database,database/iterator,database/storage/hashmap,database/storage/bbolt,config,modules"
 	c13.Stub = []string{"no websocket: CreateDatabaseAPI with a recording send function"}
 	props["C13"] = &c13
 	props["C20"] = &propCfg{
@@ -191,6 +193,13 @@ func build(id string, pc *propCfg) *buildResult {
 	args := []string{"-repo", repoDir, "-verif", verifDir, "-out", scratch, "-harness", pc.Harness, "-pkgs", pc.Pkgs}
 	if pc.FSPkgs != "" {
 		args = append(args, "-fspkgs", pc.FSPkgs)
+	}
+	if os.Getenv("VERIF_RACE_ALL") == "1" && pc.MapPkgs == "" {
+		// exploration aid: race tracking for a property that does not claim it (simkit switches it on likewise)
+		pc.MapPkgs = pc.Pkgs
+	}
+	if pc.MapPkgs != "" {
+		args = append(args, "-mappkgs", pc.MapPkgs)
 	}
 	if pc.ExtPkgs != "" {
 		args = append(args, "-extpkgs", pc.ExtPkgs)
